@@ -1213,6 +1213,65 @@ fn main() {
         log_fx.opens.iter().map(|o| format!("{{ create := {}, append := {}, truncate := {}, write := {}, createNew := {} }}", o.0, o.1, o.2, o.3, o.4)).collect::<Vec<_>>().join(", ")
     ));
     lean.push_str(&format!("/-- File::create / set_len / seek / fs::write / remove_file / rename / truncate inside impl EventLog -/\ndef destructiveCalls : Nat := {}\n\n", log_fx.destructive));
+    // EventLog::append: how many of its write / flush calls sit under a condition (if / match / loop)
+    {
+        struct CondWrites {
+            depth: u32,
+            total: u32,
+            conditional: u32,
+        }
+        impl<'ast> Visit<'ast> for CondWrites {
+            fn visit_expr_if(&mut self, e: &'ast syn::ExprIf) {
+                self.visit_expr(&e.cond);
+                self.depth += 1;
+                self.visit_block(&e.then_branch);
+                if let Some((_, els)) = &e.else_branch {
+                    self.visit_expr(els);
+                }
+                self.depth -= 1;
+            }
+            fn visit_expr_match(&mut self, m: &'ast syn::ExprMatch) {
+                self.visit_expr(&m.expr);
+                self.depth += 1;
+                for a in &m.arms {
+                    self.visit_arm(a);
+                }
+                self.depth -= 1;
+            }
+            fn visit_expr_while(&mut self, w: &'ast syn::ExprWhile) {
+                self.depth += 1;
+                syn::visit::visit_expr_while(self, w);
+                self.depth -= 1;
+            }
+            fn visit_expr_for_loop(&mut self, f: &'ast syn::ExprForLoop) {
+                self.depth += 1;
+                syn::visit::visit_expr_for_loop(self, f);
+                self.depth -= 1;
+            }
+            fn visit_expr_method_call(&mut self, c: &'ast syn::ExprMethodCall) {
+                let m = c.method.to_string();
+                if m == "write_all" || m == "flush" || m == "write" {
+                    self.total += 1;
+                    if self.depth > 0 {
+                        self.conditional += 1;
+                    }
+                }
+                syn::visit::visit_expr_method_call(self, c);
+            }
+        }
+        let mut finder = FnFinder { want_type: Some("EventLog"), want_fn: "append", cur_type: None, found: None };
+        finder.visit_file(&parsed["crates/rip-log/src/lib.rs"]);
+        let mut cw = CondWrites { depth: 0, total: 0, conditional: 0 };
+        match finder.found {
+            None => {
+                eprintln!("ripx: rip-log/src/lib.rs: EventLog::append not found");
+                std::process::exit(1);
+            }
+            Some(block) => cw.visit_block(&block),
+        }
+        lean.push_str(&format!("/-- write_all / write / flush calls in `EventLog::append` -/\ndef appendWrites : Nat := {}\n\n", cw.total));
+        lean.push_str(&format!("/-- … of which under an `if`, a `match` arm or a loop -/\ndef appendWritesUnderACondition : Nat := {}\n\n", cw.conditional));
+    }
     lean.push_str("end Rip.Gen.LogEffects\n");
     write_if_changed(&out.join("LogEffects.lean"), &lean);
 
